@@ -761,17 +761,24 @@ def ufunc1(ex, name, v):
             if isinstance(x, VFloat) and is_conc(x.v):
                 return VBool(x.v != x.v)
             return VBool(False)
+        if name == "isinf":
+            if isinstance(x, VFloat) and not is_conc(x.v) and is_fp(x.v):
+                return VBool(z3.fpIsInf(x.v))
+            if isinstance(x, VFloat) and is_conc(x.v):
+                import math
+                return VBool(math.isinf(x.v))
+            return VBool(False)      # real mode: every value is finite (stated: machine arithmetic treated as mathematical)
         raise Unsupported(f"ufunc {name}")
     if ex.is_arr(v):
         c = cell(ex, v)
-        dt = VDtype("bool") if name == "isnan" else c.dtype
+        dt = VDtype("bool") if name in ("isnan", "isinf") else c.dtype
         return new_array(ex, c.shape, dt, lambda ix: f(c.elem(ix)))
     if not is_num(v):
         raise Unsupported(f"np.{name}({v!r})")
     return f(v)
 
 
-for _n in ("abs", "trunc", "floor", "ceil", "square", "exp", "sqrt", "log10", "isnan"):
+for _n in ("abs", "trunc", "floor", "ceil", "square", "exp", "sqrt", "log10", "isnan", "isinf"):
     NP["numpy." + _n] = (lambda n: lambda ex, args, kwargs, fr: ufunc1(ex, n, args[0]))(_n)
 
 
